@@ -19,11 +19,39 @@
 (*   Dev_HostileCountCrashes   a hostile element count in a request whose  *)
 (*                             generated decoder allocates from the wire   *)
 (*                             (C07) aborts the process                    *)
+(*                                                                         *)
+(* Saturation (alphabets "satcore", "sat"): the probe service has a method *)
+(* whose body waits for a gate only the environment opens.  `slow` starts  *)
+(* it on an object; what the hostile client then sends to that object      *)
+(* piles up in the mailbox (10), in the hand of the connection's consumer  *)
+(* goroutine, in the handler queue (10) and in the socket: floods of calls *)
+(* and posts on one or two connections, registrations, a terminate.  A     *)
+(* cooperative client may call meanwhile (victim_call) and a fresh one may *)
+(* ask the objects that are not inside the slow method (probe_others).     *)
+(* While the gate is closed nothing is demanded of the slow object nor of  *)
+(* the flooded connections.  The gate is opened by `release`, at the       *)
+(* latest at the end of the sequence; then every call of the cooperative   *)
+(* client is answered and every object no terminate request has named      *)
+(* serves.  Who holds which lock while which queue is full is the subject  *)
+(* of SignalLockPath.tla; here the outcome appears as the deviation        *)
+(*   Dev_SaturationDeadlocks   a terminate processed with two consumers    *)
+(*                             parked on the mailbox stops the service; a  *)
+(*                             registration processed while the same       *)
+(*                             connection floods posts stops the object    *)
+(*                                                                         *)
+(* A client that does not read (alphabet "noread"): stop_reading leaves    *)
+(* what the server sends in the socket, flood_big sends calls whose        *)
+(* replies are larger than what the socket buffers.  The property demands  *)
+(* that every object goes on answering the others; the code as found       *)
+(* writes the reply from the object's mailbox goroutine with no deadline:  *)
+(*   Dev_SendBlocksOnUnreadSocket  the object answers nobody as long as    *)
+(*                             that connection stays open                  *)
 (* With all deviations off: ServerUp and AllServe are invariants.          *)
 (***************************************************************************)
 EXTENDS Naturals, Sequences, FiniteSets, TLC, Json
 
-CONSTANTS MaxLen, Alphabet, Dev_DupUserStucksObject, Dev_AuthFloodCrashes, Dev_HostileCountCrashes
+CONSTANTS MaxLen, Alphabet, Dev_DupUserStucksObject, Dev_AuthFloodCrashes, Dev_HostileCountCrashes,
+          Dev_SaturationDeadlocks, Dev_SendBlocksOnUnreadSocket
 
 Targets == {"dir", "p1", "p2"}            \* directory object, probe objects
 GenericActs == {0, 1, 2, 3, 5, 6, 7, 8, 80, 81, 82, 83, 84, 85}
@@ -44,7 +72,7 @@ FullOps ==
   \cup {Op("garbage", t, a, g) : t \in {"p1", "p2"}, a \in ProbeActs, g \in GarbageKinds}
   \cup {Op("setprop", t, 6, x) : t \in Targets, x \in {"wrongname", "wrongtype"}}
   \cup {Op("terminate_other", t, 3, "") : t \in Targets}
-  \cup {Op("flood_calls", "p1", 100, ""), Op("flood_auth", "dir", 8, "")}
+  \cup {Op("flood_calls", "p1", 25, "A"), Op("flood_auth", "dir", 8, "")}
   \cup {Op("disconnect", "dir", 0, x) : x \in {"header", "payload"}}
 (* one representative per class *)
 SmallOps ==
@@ -55,53 +83,131 @@ SmallOps ==
   \cup {Op("garbage", "p1", 0, "trunc"), Op("garbage", "p1", 6, "count"), Op("garbage", "dir", 102, "count"),
         Op("garbage", "dir", 101, "garbage"), Op("garbage", "p2", 100, "count")}
   \cup {Op("setprop", "p1", 6, "wrongtype"), Op("terminate_other", "p2", 3, "")}
-  \cup {Op("flood_calls", "p1", 100, ""), Op("flood_auth", "dir", 8, "")}
+  \cup {Op("flood_calls", "p1", 25, "A"), Op("flood_auth", "dir", 8, "")}
   \cup {Op("disconnect", "dir", 0, x) : x \in {"header", "payload"}}
-Ops == IF Alphabet = "full" THEN FullOps ELSE SmallOps
+(* saturation.  a = number of requests: above the capacities on the path (handler queue 10 + 1 in the consumer's hand
+   + mailbox 10 + 1 in the method) for calls, which are refused when the queue is full; a few hundred for posts, which
+   are small and may also sit in the socket.  x = the connection of the hostile client ("A", "B") *)
+FloodCalls == 40
+FloodPosts == 300
+RegBurst == 5
+SatCoreOps ==
+       {Op("flood_calls", "p1", FloodCalls, x) : x \in {"A", "B"}}
+  \cup {Op("flood_posts", "p1", FloodPosts, "A"), Op("reg_many", "p1", RegBurst, "A")}
+  \cup {Op("terminate", "p1", 3, "A"), Op("victim_call", "p1", 100, "")}
+SatOps ==
+       {Op("slow", t, 100, "A") : t \in {"p1", "p2"}}
+  \cup {Op("flood_calls", t, FloodCalls, x) : t \in {"p1", "p2"}, x \in {"A", "B"}}
+  \cup {Op("flood_posts", "p1", FloodPosts, x) : x \in {"A", "B"}}
+  \cup {Op("reg_many", "p1", RegBurst, x) : x \in {"A", "B"}} \cup {Op("unreg_many", "p1", RegBurst, "A")}
+  \cup {Op("terminate", t, 3, "A") : t \in {"p1", "p2"}}
+  \cup {Op("victim_call", t, 100, "") : t \in Targets}
+  \cup {Op("probe_others", "", 0, ""), Op("release", "", 0, "")}
+  \cup {Op("disconnect", "dir", 0, "header")}
+NoReadOps ==
+       {Op("stop_reading", "", 0, "A"), Op("probe_others", "", 0, ""), Op("disconnect", "dir", 0, "header")}
+  \cup {Op("flood_big", t, 20, "A") : t \in {"p1", "p2"}}
+Saturating == Alphabet \in {"satcore", "sat"}
+Ops == CASE Alphabet = "full" -> FullOps
+         [] Alphabet = "small" -> SmallOps
+         [] Alphabet = "satcore" -> SatCoreOps \cup {Op("slow", "p1", 100, "A")}
+         [] Alphabet = "sat" -> SatOps
+         [] Alphabet = "noread" -> NoReadOps
+         [] Alphabet = "noread1" -> NoReadOps \ {Op("flood_big", "p2", 20, "A")}
+EnvKinds == {"victim_call", "probe_others", "release"}      \* not sent by the hostile client
 
 VARIABLES
   hist,     \* requests sent so far, with the answer class each one gets
   mine,     \* mine[t]: does the hostile connection hold a subscription it made on t ("again" repeats it)
   stuck,    \* objects whose mailbox goroutine will never take another mail
   up,       \* the server process runs
-  open      \* the hostile connection is open
+  open,     \* the hostile connection is open
+  busy,     \* objects inside the slow method (the gate is closed)
+  gone,     \* objects a terminate request has named
+  parked,   \* parked[t]: connections ("A", "B", "V" the cooperative client) with requests waiting behind the slow call on t
+  posted,   \* posted[t]: connections that flood posts behind the slow call on t
+  queued,   \* queued[t]: "term" / "reg" requests waiting behind the slow call on t
+  deaf,     \* the hostile client has stopped reading its socket
+  choked    \* objects whose mailbox goroutine waits in SendReply for the hostile client to read (deviation)
 
-vars == <<hist, mine, stuck, up, open>>
+vars == <<hist, mine, stuck, up, open, busy, gone, parked, posted, queued, deaf, choked>>
 
 Init == /\ hist = <<>> /\ mine = [t \in Targets |-> FALSE]
         /\ stuck = {} /\ up = TRUE /\ open = TRUE
+        /\ busy = {} /\ gone = {}
+        /\ parked = [t \in Targets |-> {}] /\ posted = [t \in Targets |-> {}] /\ queued = [t \in Targets |-> {}]
+        /\ deaf = FALSE /\ choked = {}
 
-(* answer class: "reply" | "error" | "none" (no answer expected or possible) *)
+(* answer class: "reply" | "error" | "none" (no answer expected, possible or waited for) | "any" *)
+SatKinds == {"slow", "flood_posts", "reg_many", "unreg_many", "terminate", "victim_call", "probe_others", "release",
+             "stop_reading", "flood_big"}
+IsSat(op) == op.k \in SatKinds \/ (op.k = "flood_calls" /\ op.t \in busy)
+(* what the deviation makes of the state after the step: the whole probe service, or one object, will never serve again *)
+Doomed(b, pk, ps, qd) ==
+  IF ~Dev_SaturationDeadlocks THEN {}
+  ELSE UNION {(IF "term" \in qd[t] /\ Cardinality(pk[t]) >= 2 THEN {"p1", "p2"} ELSE {})
+              \cup (IF "reg" \in qd[t] /\ ps[t] # {} THEN {t} ELSE {}) : t \in b}
 Send(op) ==
-  /\ open /\ up /\ Len(hist) < MaxLen
+  /\ up /\ Len(hist) < MaxLen
+  /\ op.k \notin EnvKinds => open
+  /\ Saturating => (hist = <<>> <=> (op.k = "slow" /\ op.t = "p1"))
+  /\ op.k = "slow" => op.t \notin busy \cup gone \cup stuck
+  /\ op.k = "release" => busy # {}
   /\ LET dup == op.k = "reg" /\ ((op.x = "again" /\ mine[op.t]) \/ op.x = "victim")
          dead == op.t \in stuck
+         behind == op.t \in busy                          \* the request waits behind the slow call
          crash == \/ Dev_AuthFloodCrashes /\ op.k = "flood_auth"
                   \/ Dev_HostileCountCrashes /\ op.k = "garbage" /\ op.x = "count" /\ CountSensitive(op.t, op.a)
-         sticks == Dev_DupUserStucksObject /\ dup
-         ans == IF dead \/ crash \/ sticks THEN "none"
+         sticks == Dev_DupUserStucksObject /\ dup /\ ~behind
+         ans == IF dead \/ crash \/ sticks \/ behind \/ IsSat(op) THEN "none"
                 ELSE CASE op.k = "reg" -> IF dup THEN "error" ELSE "reply"
                        [] op.k = "unreg" -> IF op.x = "mine" /\ mine[op.t] THEN "reply" ELSE "error"
                        [] op.k \in {"reg_wrongobj", "unknown_action", "setprop", "terminate_other"} -> "error"
                        [] op.k = "garbage" -> "any"     \* an error for undecodable arguments, a reply when the
                                                         \* action takes none or the bytes happen to decode
                        [] op.k \in {"flood_calls", "flood_auth", "disconnect"} -> "none"
-     IN /\ hist' = Append(hist, [op |-> op, ans |-> ans])
+         busy2 == CASE op.k = "slow" -> busy \cup {op.t}
+                    [] op.k = "release" -> {}
+                    [] OTHER -> busy
+         gone2 == IF op.k = "terminate" THEN gone \cup {op.t} ELSE gone
+         parked2 == CASE op.k = "release" -> [t \in Targets |-> {}]
+                      [] op.k \in {"flood_calls", "flood_posts"} /\ behind -> [parked EXCEPT ![op.t] = @ \cup {op.x}]
+                      [] op.k = "victim_call" /\ behind /\ parked[op.t] # {} -> [parked EXCEPT ![op.t] = @ \cup {"V"}]
+                      [] OTHER -> parked
+         posted2 == CASE op.k = "release" -> [t \in Targets |-> {}]
+                      [] op.k = "flood_posts" /\ behind -> [posted EXCEPT ![op.t] = @ \cup {op.x}]
+                      [] OTHER -> posted
+         queued2 == CASE op.k = "release" -> [t \in Targets |-> {}]
+                      [] op.k = "terminate" /\ behind -> [queued EXCEPT ![op.t] = @ \cup {"term"}]
+                      [] op.k \in {"reg_many", "unreg_many"} /\ behind -> [queued EXCEPT ![op.t] = @ \cup {"reg"}]
+                      [] OTHER -> queued
+         stuck2 == (IF sticks /\ ~dead THEN stuck \cup {op.t} ELSE stuck) \cup Doomed(busy \cup busy2, parked2, posted2, queued2)
+         choked2 == CASE op.k = "disconnect" -> {}         \* the connection is closed: the pending writes fail
+                      [] op.k = "flood_big" /\ deaf /\ Dev_SendBlocksOnUnreadSocket -> choked \cup {op.t}
+                      [] OTHER -> choked
+         (* probe_others: the objects a fresh client asks in the middle of the sequence (the gate may be closed) *)
+         srv == IF op.k = "probe_others" THEN Targets \ (busy \cup gone \cup stuck2 \cup choked2) ELSE {}
+     IN /\ hist' = Append(hist, [op |-> op, ans |-> ans, srv |-> srv])
         /\ mine' = IF dead \/ crash \/ sticks THEN mine
                    ELSE CASE op.k = "reg" /\ ~dup -> [mine EXCEPT ![op.t] = TRUE]
                           [] op.k = "unreg" /\ op.x = "mine" -> [mine EXCEPT ![op.t] = FALSE]
                           [] OTHER -> mine
-        /\ stuck' = IF sticks /\ ~dead THEN stuck \cup {op.t} ELSE stuck
+        /\ stuck' = stuck2
         /\ up' = ~crash
-        /\ open' = (op.k # "disconnect")
+        /\ open' = (open /\ op.k # "disconnect")
+        /\ busy' = busy2 /\ gone' = gone2 /\ parked' = parked2 /\ posted' = posted2 /\ queued' = queued2
+        /\ deaf' = (deaf \/ op.k = "stop_reading") /\ choked' = choked2
 
 Next == \E op \in Ops : Send(op)
 Spec == Init /\ [][Next]_vars
 
 (* C12 *)
 ServerUp == up
-AllServe == stuck = {}
-(* what the probe of a fresh client must find after the sequence *)
-Expect == [up |-> up, serving |-> Targets \ stuck]
+AllServe == stuck = {} /\ choked = {}
+(* what a fresh client must find after the sequence, the hostile client gone and the gate open (the harness opens it if
+   the sequence has not):
+   every object serves except those a terminate request has named; the calls of the cooperative client are answered
+   - by anything when the object is one of those *)
+Expect == [up |-> up, serving |-> Targets \ (stuck \cup gone), gone |-> gone]
 Export == hist # <<>> => PrintT(<<"Q", ToJson([h |-> hist, e |-> Expect])>>)
 =============================================================================
